@@ -43,3 +43,85 @@ Proof.
 Qed.
 
 End WithStorage.
+
+(* ---------- the election timer of a node that is not leader (C15) ---------- *)
+Section Election.
+Variable st : memstorage.
+
+Local Arguments step : simpl never.
+
+(* a tick before the randomized timeout only advances the timer *)
+Theorem tick_election_counts r r' :
+  r_state r <> StateLeader -> r_election_elapsed r + 1 < r_randomized_election_timeout r ->
+  tick st r = Ok r' -> r' = set_r_election_elapsed r (r_election_elapsed r + 1).
+Proof.
+  intros NL LT H. unfold tick in H.
+  assert (TE : tick_election st r = Ok r') by (destruct (r_state r); try exact H; congruence).
+  unfold tick_election in TE. cbn [r_randomized_election_timeout r_election_elapsed set_r_election_elapsed] in TE.
+  apply N.leb_gt in LT. rewrite LT in TE. rewrite andb_false_r in TE. inversion TE. reflexivity.
+Qed.
+
+Lemma campaign_state r t r' :
+  campaign st r t = Ok r' ->
+  r_state r' = match t with CampaignPreElection => StatePreCandidate | _ => StateCandidate end.
+Proof.
+  unfold campaign. intros H.
+  match type of H with bind ?x _ = _ => destruct x as [[[r1 vm] term]|] eqn:E1; cbn [bind] in H; [|discriminate] end.
+  assert (S1 : r_state r1 = match t with CampaignPreElection => StatePreCandidate | _ => StateCandidate end).
+  { destruct t.
+    - unfold become_pre_candidate in E1. destruct (state_type_eqb _ _); [discriminate|]. cbn [bind] in E1. inversion E1; reflexivity.
+    - destruct (become_candidate st r) as [r2|] eqn:E2; cbn [bind] in E1; [|discriminate]. inversion E1; subst.
+      unfold become_candidate in E2. destruct (state_type_eqb _ _); [discriminate|].
+      destruct (reset st r (r_term r + 1)); cbn [bind] in E2; [|discriminate]. inversion E2; reflexivity.
+    - destruct (become_candidate st r) as [r2|] eqn:E2; cbn [bind] in E1; [|discriminate]. inversion E1; subst.
+      unfold become_candidate in E2. destruct (state_type_eqb _ _); [discriminate|].
+      destruct (reset st r (r_term r + 1)); cbn [bind] in E2; [|discriminate]. inversion E2; reflexivity. }
+  destruct (l_last_entry_id st (r_log r1)) as [last|]; cbn [bind] in H; [|discriminate].
+  rewrite <- S1. clear S1 E1. revert H.
+  generalize (voter_ids (t_config (r_trk r1))) as ids.
+  intros ids. revert r1.
+  induction ids as [|id ids IH]; intros r1 H; cbn in H.
+  - inversion H; reflexivity.
+  - match type of H with bind ?x _ = _ => destruct x as [r2|] eqn:E2; cbn [bind] in H; [|discriminate] end.
+    apply IH in H. rewrite H.
+    destruct (N.eqb id (r_id r1)); unfold send in E2; inv_ok; reflexivity.
+Qed.
+
+(* when the randomized election timeout runs out, a node that may campaign (a voter with no
+   snapshot pending and no committed configuration change waiting to be applied) does: it is a
+   pre-candidate (PreVote) or a candidate afterwards *)
+Theorem election_timeout_fires r r' :
+  r_state r <> StateLeader ->
+  r_randomized_election_timeout r <= r_election_elapsed r + 1 ->
+  promotable r = true -> has_unapplied_conf_changes st r = Ok false ->
+  tick st r = Ok r' ->
+  r_state r' = if r_pre_vote r then StatePreCandidate else StateCandidate.
+Proof.
+  intros NL LE PR HU H. unfold tick in H.
+  assert (TE : tick_election st r = Ok r') by (destruct (r_state r); try exact H; congruence).
+  clear H. unfold tick_election in TE.
+  set (r0 := set_r_election_elapsed r (r_election_elapsed r + 1)) in *.
+  assert (P0 : promotable r0 = true) by exact PR.
+  rewrite P0 in TE. apply N.leb_le in LE.
+  change (r_randomized_election_timeout r0 <=? r_election_elapsed r0) with
+         (r_randomized_election_timeout r <=? r_election_elapsed r + 1) in TE.
+  rewrite LE in TE. cbn [andb] in TE.
+  match type of TE with bind ?x _ = _ => destruct x as [[r2 e2]|] eqn:ES; cbn [bind] in TE; [|discriminate] end.
+  inversion TE; subst; clear TE. cbn [fst].
+  unfold step, step_gen, step_preamble in ES. cbn [m_term set_from msg0 N.eqb bind negb] in ES.
+  unfold step_dispatch in ES. cbn [m_type set_from msg0] in ES.
+  set (r1 := set_r_election_elapsed r0 0) in *.
+  match type of ES with bind ?x _ = _ => destruct x as [r3|] eqn:EH; cbn [bind] in ES; [|discriminate] end.
+  inversion ES; subst; clear ES.
+  unfold hup in EH.
+  assert (S1 : state_type_eqb (r_state r1) StateLeader = false).
+  { change (r_state r1) with (r_state r). destruct (r_state r); try reflexivity. congruence. }
+  rewrite S1 in EH.
+  change (promotable r1) with (promotable r) in EH. rewrite PR in EH. cbn [negb] in EH.
+  change (has_unapplied_conf_changes st r1) with (has_unapplied_conf_changes st r) in EH.
+  rewrite HU in EH. cbn [bind] in EH.
+  apply campaign_state in EH. rewrite EH.
+  change (r_pre_vote r1) with (r_pre_vote r). destruct (r_pre_vote r); reflexivity.
+Qed.
+
+End Election.
